@@ -237,7 +237,8 @@ def build_harness(name, front_ends, exclude=(), flags=None, link=None, cc="gcc",
             if d.startswith("h_%s_" % name) and d != os.path.basename(outdir):
                 shutil.rmtree(os.path.join(BUILD, d), ignore_errors=True)
         os.makedirs(outdir, exist_ok=True)
-        inc = ["-I" + REPO, "-I" + os.path.join(REPO, "third-party"), "-I" + _gen_include_dir(),
+        gen = _gen_include_dir()
+        inc = ["-I" + REPO, "-I" + os.path.join(REPO, "third-party"), "-I" + gen, "-I" + os.path.join(gen, "rtrlib"),
                "-I" + os.path.join(VERIF, "harness")]
         srcs = [os.path.join(REPO, s) for s in REPO_SOURCES if s not in exclude] + fe_paths
         procs = []
@@ -397,7 +398,11 @@ class Report:
                 continue
             seen.add(sig)
             print("KNOWN-FINDING: property=%s %s (%s)" % (self.pid, what, sig))
+        shown = set()
         for p, no_input in self.violations:
+            if p in shown:
+                continue
+            shown.add(p)
             print("VIOLATION property=%s replay=%s%s" % (self.pid, p, " no-failing-input-found" if no_input else ""))
         sys.stdout.flush()
         return 1 if self.violations else 0
